@@ -42,6 +42,10 @@ CHECKS = {
    "exhaustive enumeration of input feeds (file, pipe in every chunking with <= 2 cuts x explored schedules of writer vs shell, -c, dot script, eval) x syntax-error positions on the real shell; oracle = line-consumption unit model + descriptor offsets",
    "14 scripts built from units (command lines plus exactly the data lines they consume: read with 1-2 variables, grouped reads, read in a loop / subshell / pipeline stage, alias and option changes affecting later lines only, multi-line compound commands, here-documents incl. a here-document followed by a stdin reader on the same line, cat swallowing the rest, line continuations, exit) with a syntax error planted before every unit (67 cases). Each case is fed (i) as a regular file on descriptor 0 with a `pos` probe after every unit — the descriptor offset must be exactly the end of that line; (ii) through a pipe written by a separate simulated process in every chunking with <= 1 (quick) / <= 2 (thorough) cuts at positions around every newline and mid-line, under every schedule of writer and shell with <= 1 / <= 2 deviations (thorough: + syscall-tap preemption); (iii)-(v) as -c string, dot script and eval when the script does not read its own input. All feeds must give the unit model's markers, stdout bytes and exit-status class; lines before a syntax error have run, nothing after it.",
    "Unit expectations hand-written from the line-by-line rules; simulator pipe semantics."),
+ "C15": ("model_checking", "DESIGN.md §3 C15",
+   "explicit-state BFS over driver choice sequences for every small task system, each history replayed on the real yash_executor::Executor with instrumented futures in lock-step with a FIFO reference model",
+   "Task systems: 2 tasks with scripts of <= 2 actions over 11 actions (self-wake+yield, duplicate self-wake, wait on channel 0 / 1 / either, signal a channel by consuming wake / wake_by_ref, clone-and-drop the waker, spawn a child through the Spawner), 3 tasks over a 6-action alphabet (thorough: scripts <= 2; plus 2 tasks with scripts <= 3). For each system a BFS over driver choices {step, run_until_stalled, signal channel 0/1 from outside, spawn another task} to depth 5 (quick) / 7 (thorough), states merged on the reference model's state. Every history runs on a fresh real Executor; after every driver operation the poll log of the instrumented futures must equal the model's (so FIFO order, no lost wake-up, no starvation by self-wakers), wake_count must equal the model queue length (a task queued at most once), step/run_until_stalled return values must agree, no future is polled after Ready or re-entrantly, each Receiver yields its value exactly once as soon as its task finished, at stall every unfinished task is registered on a channel not signalled since, and every future is dropped exactly once at tear-down.",
+   "Reference FIFO model trusted; wakers exercised through std::task::Waker (raw vtable) only."),
 }
 
 NOT_YET = {
